@@ -153,18 +153,31 @@ def check_hold(ctx, facts):
                 return (d == 0) if cn.endswith("is_none") else (d == 1)
             raise Undecided("call " + cn)
 
+        # payload of the non-strict variant (AtLeastOnce { persist_every }): small and large values
+        adt = facts.adts.get("wal::runtime::walrus::ReadConsistency") or {}
+        payload = []
+        for v in adt.get("variants", []):
+            if v["name"] != "StrictlyAtOnce":
+                payload = [f["name"] if isinstance(f, dict) else f for f in v.get("fields", [])]
+        PAY = (0, 1, 2, 64) if payload else (None,)
+
         def table(entry):
             rows = {}
             for strict in (True, False):
                 for cp_v in (True, False):
                     for none_v in (True, False):
-                        env = {1: Ref(-1), -1: {"read_consistency": {"__discr": 0 if strict else 1}}, cpl: cp_v, sol: {"__discr": 0 if none_v else 1}}
-                        it = Interp(b, call_model=model)
-                        r = it.run({}, start_bb=entry, stop_blocks=use_blocks, env=env)
-                        hv = r[2].get(hold) if r[0] == "stop" else None
-                        if not isinstance(hv, bool):
-                            raise Undecided("hold not assigned on a path")
-                        rows[(strict, cp_v, none_v)] = hv
+                        for pv in (PAY if not strict else (None,)):
+                            rc = {"__discr": 0 if strict else 1}
+                            if pv is not None:
+                                for fn_ in payload:
+                                    rc[fn_] = pv
+                            env = {1: Ref(-1), -1: {"read_consistency": rc}, cpl: cp_v, sol: {"__discr": 0 if none_v else 1}}
+                            it = Interp(b, call_model=model)
+                            r = it.run({}, start_bb=entry, stop_blocks=use_blocks, env=env)
+                            hv = r[2].get(hold) if r[0] == "stop" else None
+                            if not isinstance(hv, bool):
+                                raise Undecided("hold not assigned on a path")
+                            rows[(strict, cp_v, none_v) + ((pv,) if pv is not None else ())] = hv
             return rows
 
         rows = None
@@ -186,9 +199,9 @@ def check_hold(ctx, facts):
             if bad:
                 ctx.violate("C05.2", F, "guard-released-during-consuming-stateful-read", b.relfile, defs[0].line,
                             "hold is false for a consuming stateful batch read when consistency is %s: the column lock is dropped between planning and commit, so two concurrent batch "
-                            "consumers can plan from the same cursor and both deliver the entries" % ("StrictlyAtOnce" if bad[0][0] else "AtLeastOnce"))
+                            "consumers can plan from the same cursor and both deliver the entries" % ("StrictlyAtOnce" if bad[0][0] else "AtLeastOnce%s" % (" {%s: %s}" % (payload[0], bad[0][3]) if len(bad[0]) > 3 else "")))
             else:
-                ctx.ok("C05.2", F, "checkpoint AND start_offset.is_none() => hold (all 8 valuations evaluated)", b.relfile, defs[0].line,
+                ctx.ok("C05.2", F, "checkpoint AND start_offset.is_none() => hold (all valuations of consistency incl. payload x checkpoint x start_offset evaluated)", b.relfile, defs[0].line,
                        "hold table (strict,checkpoint,stateful)->hold: %s" % sorted(rows.items()))
     # commit closure call sites
     hold_true_edges = []
